@@ -19,10 +19,11 @@ THEOREMS = [
     "GoaktVerif.C15.C15_cross_witness",
     "GoaktVerif.C15.C15_asIs_refuted",
     "GoaktVerif.C15.C15_asIs_refuted_ownReply",
+    "GoaktVerif.C15.Grain.C15_grain_loss_witness",
 ]
 MANIFEST = {
     "level_text": "Kernel-checked, no bounds: C15_holds - on the small-step model of PID.Ask / ReceiveContext.build / Response / the contextCh and responseCh pools / UnboundedMailbox's recycling of the previous sentinel as the code is since fix d1a16fa (Mode.fixed; both pools in use; any number of callers with distinct request ids, a single consumer, deadlines as explicit steps, the CAS and the channel send of Response as separate steps) EVERY schedule satisfies both clauses: every reply an Ask receives is its own (C15_fixed_ownReply; invariant FInv: a receive context is in exactly one of {pool, unbuilt caller, mailbox, sentinel}, a pooled channel is empty and referenced by no pending request, a buffered value carries the id the channel was handed out for) and no Ask takes its timeout branch after Response for it has returned (C15_fixed_noLoss; invariant NInv: ids occur once, a pending context carries a built unanswered id and its caller waits on that context, a caller at its select has its reply in its channel as soon as Response returned). The code before the fix (Mode.asIs) is refuted for both clauses (C15_loss_witness 24 steps, C15_cross_witness 10 steps). Tie, re-run on every check: the REAL PID.Ask, build, Response, pools and mailbox run on a bare PID under controlled schedules and must produce the model's trace (atomic-site labels from yieldinject), results and final pool digest; deadlines are explicit context cancellations, never wall clock; the outcome oracle (own reply, no in-time reply lost) is evaluated on the implementation's own output.",
-    "level_note": "Partial in these respects: the dispatcher is not in the model (the harness plays the single worker: Dequeue + Response; that an actor has one worker at a time is property C01); actor.Ask (api.go) and actorSystem.handleRemoteAsk have the same body as PID.Ask and got the same fix but are not driven by the harness (they need an ActorSystem); SendSync/BatchAsk/ReceiveContext.Ask call PID.Ask; the grain Ask path (grain_engine.go still stores responseClosed on timeout on a pooled GrainContext) and remote Ask are not modelled; the CAS-to-send window of Response is covered by the theorem but not by the tie (no schedule point between them). Trusted: a select with a ready reply takes the reply (the harness never makes both branches ready); sync/atomic is sequentially consistent.",
+    "level_note": "Partial in these respects: the dispatcher is not in the model (the harness plays the single worker: Dequeue + Response; that an actor has one worker at a time is property C01); actor.Ask (api.go) and actorSystem.handleRemoteAsk are driven by the harness too (ops b<k>, c<k>; api.go has no atomic site and cannot be instrumented, so a late store re-introduced there would show as a digest difference without a schedule point); SendSync/BatchAsk/ReceiveContext.Ask call PID.Ask; the grain Ask path (actorSystem.localSend + grainMailbox + GrainContext) has its own small-step model (Model.C15Grain, tied by `gask` cases) but no all-schedules theorem: it still has the late store - OPEN finding C15-F3, replayed on the real code, witness theorem C15.Grain.C15_grain_loss_witness, fix proposal fixes/C15-grain-no-late-store.diff; remote Ask is not modelled; the CAS-to-send window of Response is covered by the theorem but not by the tie (no schedule point between them). Trusted: a select with a ready reply takes the reply (the harness never makes both branches ready); sync/atomic is sequentially consistent.",
     "technique": "Lean 4 inductive invariants over a small-step model (all schedules), model replayed against the real code under controlled schedules (yield injection), refutation of the pre-fix code by kernel evaluation of concrete schedules",
 }
 TRUSTED = [
@@ -33,20 +34,37 @@ TRUSTED = [
 RULE = ("1-3 caller threads with 1-4 Asks each (distinct request ids), one worker thread with as many handle ops, schedules of 0-60 entries "
         "(thread steps and deadline steps) then round-robin completion; non-trivial = harness produced a trace; distinct by (case, output)")
 
-INPKG = ["actor/zz_verif_c15.go"]
-INSTRUMENT = ["actor/pid.go", "actor/receive_context.go", "internal/timer/timer.go"]
+INPKG = ["actor/zz_verif_c15.go", "actor/zz_verif_c15g.go"]
+INSTRUMENT = ["actor/pid.go", "actor/receive_context.go", "internal/timer/timer.go", "actor/actor_system.go",
+              "actor/grain_context.go", "actor/grain_engine.go", "actor/grain_mailbox.go"]
 INSTRUMENT_ARGS = {
     # PID.Tell is listed only so that the file always has at least one site (check.py cannot digest a file without
     # sites); the repaired PID.Ask has none, a late store re-introduced into it shows up as extra trace labels
     "actor/pid.go": ["-funcs", "PID.Ask,PID.Tell"],
     "actor/receive_context.go": ["-funcs", "ReceiveContext.Response,ReceiveContext.build"],
     "internal/timer/timer.go": ["-entry", "Pool.Get"],
+    # decreaseActorsCounter only keeps the site list non-empty (see pid.go); api.go has no atomic site at all and
+    # cannot be instrumented: actor.Ask is driven through build's and timers.Get's points only
+    "actor/actor_system.go": ["-funcs", "actorSystem.handleRemoteAsk,actorSystem.decreaseActorsCounter"],
+    # grain path (cases `gask …`)
+    "actor/grain_context.go": ["-funcs", "GrainContext.build,GrainContext.Response"],
+    # GrainIdentity is listed only so that the file keeps a site once localSend has none (after the proposed fix)
+    "actor/grain_engine.go": ["-funcs", "actorSystem.localSend,actorSystem.GrainIdentity"],
+    "actor/grain_mailbox.go": ["-funcs", "grainMailbox.tryEnqueue"],
 }
 SITES = {
     "actor/receive_context.go:ReceiveContext.Response": ["CAS:responseClosed"],
     "actor/receive_context.go:ReceiveContext.build": ["Store:responseClosed"],
     "internal/timer/timer.go:Pool.Get": ["Call:Get"],
+    "actor/grain_context.go:GrainContext.build": ["Store:responseClosed"],
+    "actor/grain_context.go:GrainContext.Response": ["CAS:responseClosed"],
+    "actor/grain_mailbox.go:grainMailbox.tryEnqueue": ["Load:len", "CAS:len", "Store:next", "Swap:tail", "Store:next", "Add:len"],
 }
+# GMODE: variant of the grain path (actorSystem.localSend): "asis" = late responseClosed.Store(true) on the timeout
+# branches (open finding C15-F3); "fixed" = after fixes/C15-grain-no-late-store.diff
+GMODE = os.environ.get("VERIF_C15_GMODE", "asis")
+if GMODE == "asis":
+    SITES["actor/grain_engine.go:actorSystem.localSend"] = ["Store:responseClosed", "Store:responseClosed"]
 if MODE == "asis":
     SITES["actor/pid.go:PID.Ask"] = ["Store:responseClosed", "Store:responseClosed", "Store:responseClosed"]
 
@@ -54,6 +72,30 @@ TIMEOUT = 900
 
 
 def _case(rng, ncallers, maxasks, schedlen, timer_p):
+    k = 1
+    progs = []
+    total = 0
+    for _ in range(ncallers):
+        ops = []
+        for _ in range(rng.randint(1, maxasks)):
+            ops.append(f"{rng.choice('aaabc')}{k}")
+            k += 1
+            total += 1
+        progs.append(ops)
+    progs.append(["h"] * (total + rng.choice([0, 0, 1])))
+    n = len(progs)
+    sched = []
+    while len(sched) < schedlen:
+        if rng.random() < timer_p:
+            sched.append(n + rng.randrange(ncallers))
+        else:
+            t = rng.choice(list(range(n)) + [n - 1])     # the worker a bit more often
+            sched += [t] * rng.choice([1, 1, 2, 3])
+    return f"ask {MODE} | " + " ; ".join(" ".join(p) for p in progs) + " | " + " ".join(map(str, sched[:schedlen]))
+
+
+def _gcase(rng, ncallers, maxasks, schedlen, timer_p):
+    """grain path: an Ask is 6-7 caller steps, so schedules run threads in longer bursts"""
     k = 1
     progs = []
     total = 0
@@ -71,14 +113,35 @@ def _case(rng, ncallers, maxasks, schedlen, timer_p):
         if rng.random() < timer_p:
             sched.append(n + rng.randrange(ncallers))
         else:
-            t = rng.choice(list(range(n)) + [n - 1])     # the worker a bit more often
-            sched += [t] * rng.choice([1, 1, 2, 3])
-    return f"ask {MODE} | " + " ; ".join(" ".join(p) for p in progs) + " | " + " ".join(map(str, sched[:schedlen]))
+            t = rng.choice(list(range(n)) + [n - 1])
+            sched += [t] * rng.choice([1, 2, 3, 5, 6])
+    return f"gask {GMODE} | " + " ; ".join(" ".join(p) for p in progs) + " | " + " ".join(map(str, sched[:schedlen]))
+
+
+def _g_late_store_case(rng):
+    """grain path: caller 0 times out and is starved before its late store; caller 1 keeps asking"""
+    m = rng.randint(3, 4)
+    progs = [["a1"], [f"a{i}" for i in range(2, 2 + m)], ["h"] * (m + 1)]
+    sched = [0] * 5 + [3, 0, 2, 2]
+    for _ in range(m - 1):
+        sched += [1] * 5 + [2, 2, 1]
+    sched += [1] * rng.randint(0, 5)
+    pos = rng.randint(9, len(sched))
+    sched = sched[:pos] + [0] + sched[pos:] + [2, 2] + [rng.randrange(3) for _ in range(rng.randint(0, 4))]
+    return f"gask {GMODE} | " + " ; ".join(" ".join(p) for p in progs) + " | " + " ".join(map(str, sched))
 
 
 def gen_cases(rng, tier):
     n = 400 if tier == "quick" else 8000
     cases = []
+    for _ in range(n // 4):
+        r = rng.random()
+        if r < 0.4:
+            cases.append(_gcase(rng, 1, 3, rng.randint(0, 50), 0.04))
+        elif r < 0.9:
+            cases.append(_gcase(rng, 2, 3, rng.randint(0, 80), 0.03))
+        else:
+            cases.append(_g_late_store_case(rng))
     for _ in range(n):
         r = rng.random()
         if r < 0.3:
@@ -103,7 +166,8 @@ def _late_store_case(rng):
 
 
 def search_cases(rng, tier):
-    cases = [_late_store_case(rng) for _ in range(1500)]
+    cases = [_late_store_case(rng) for _ in range(1500)] + [_g_late_store_case(rng) for _ in range(800)]
+    cases += [_gcase(rng, 2, 3, rng.randint(10, 90), 0.04) for _ in range(1500)]
     for _ in range(6000):
         cases.append(_case(rng, rng.randint(2, 3), 3, rng.randint(10, 60), rng.choice([0.0, 0.03, 0.08])))
     return cases
@@ -126,7 +190,7 @@ def _judge(case, out):
     tr = op[0].split()[1:]
     if "cap" in tr:
         return "ok unfinished"
-    nasks = sum(1 for p in progs for o in p if o.startswith("a"))
+    nasks = sum(1 for p in progs for o in p if o[0] in "abc")
     fixed = sum(1 for e in tr if e.endswith(":Store:responseClosed")) == nasks
     st = [[0, 0] for _ in progs]
     select_at, resp_at = {}, {}
@@ -141,7 +205,7 @@ def _judge(case, out):
         if oi >= len(progs[tid]):
             continue
         o = progs[tid][oi]
-        if o.startswith("a"):
+        if o[0] in "abc":
             k = int(o[1:])
             if ph == 0:
                 st[tid][1] = 1
@@ -164,7 +228,40 @@ def _judge(case, out):
                 if r.startswith("h") and r[1:].isdigit():
                     resp_at.setdefault(int(r[1:]), pos)
                 st[tid] = [oi + 1, 0]
-    asks = [(int(o[1:]), x) for p, r in zip(progs, res) for o, x in zip(p, r) if o.startswith("a")]
+    asks = [(int(o[1:]), x) for p, r in zip(progs, res) for o, x in zip(p, r) if o[0] in "abc"]
+    for k, x in asks:
+        if x.startswith("r") and x[1:] != str(k):
+            return f"bad cross Ask {k} returned {x}: the reply of another request"
+    for k, x in asks:
+        if x == "timeout" and k in resp_at and k in select_at and resp_at[k] < select_at[k]:
+            return f"bad lost Ask {k} timed out although Response for it had returned before its deadline"
+    return "ok"
+
+
+def _judge_grain(case, out):
+    if out.startswith("HANG-skipped"):
+        return "ok skipped"
+    if out.startswith("HANG"):
+        return "bad hang an Ask never returned: a logical thread blocked outside every schedule point"
+    if out.startswith("CRASH") or out.startswith("panic"):
+        return "bad crash " + out
+    cp, op = case.split("|"), out.split("|")
+    if len(cp) != 3 or len(op) != 3:
+        return "bad unparsable " + out
+    progs = [p.split() for p in cp[1].split(";")]
+    res = [r.strip().split(",") for r in op[1].strip()[1:].split(";")]
+    tr = op[0].split()[1:]
+    if "cap" in tr:
+        return "ok unfinished"
+    select_at, resp_at = {}, {}
+    for tid, (p, r) in enumerate(zip(progs, res)):
+        sel = [pos for pos, e in enumerate(tr) if e == f"{tid}:Add:len"]
+        for k, pos in zip([int(o[1:]) for o in p if o[0] in "abc"], sel):
+            select_at[k] = pos
+        cas = [pos for pos, e in enumerate(tr) if e == f"{tid}:CAS:responseClosed"]
+        for k, pos in zip([int(x[1:]) for x in r if x.startswith("h") and x[1:].isdigit()], cas):
+            resp_at[k] = pos
+    asks = [(int(o[1:]), x) for p, r in zip(progs, res) for o, x in zip(p, r) if o[0] in "abc"]
     for k, x in asks:
         if x.startswith("r") and x[1:] != str(k):
             return f"bad cross Ask {k} returned {x}: the reply of another request"
@@ -180,16 +277,26 @@ def oracle(case, impl, judge):
     if impl.startswith("CRASH"):
         return "harness crashed: " + impl
     if judge is None or impl.startswith("HANG"):
-        judge = _judge(case, impl)
+        judge = _judge_grain(case, impl) if case.startswith("gask") else _judge(case, impl)
     return None if judge.startswith("ok") else judge
 
 
 def classify(case, impl, why):
-    """No open finding (C15-F1 / C15-F2 were fixed by d1a16fa): every oracle failure is a violation. The class returned
-    here only keeps the shrinker on the same kind of PROPERTY failure (it is never a known-finding id)."""
-    if why and why.startswith("bad ") and len(why.split()) > 1:
-        return "unlisted:" + why.split()[1]
-    return None
+    """C15-F3 (open): on the grain path (`gask asis …`) an AskGrain times out although Response for it returned before its
+    select (`bad lost`), in a case with at least 3 Asks from at least 2 caller threads (a timed-out caller's late store needs
+    its context recycled and rebuilt by somebody else). Everything else — every failure of an `ask …` case, `bad cross`,
+    `bad hang`, any failure of `gask fixed …` — is a violation; the class returned for those only keeps the shrinker on the
+    same kind of property failure."""
+    if not why or not why.startswith("bad ") or len(why.split()) < 2:
+        return None
+    kind = why.split()[1]
+    if case.startswith("gask asis") and kind == "lost":
+        progs = [p.split() for p in case.split("|")[1].split(";")]
+        nasks = sum(1 for p in progs for o in p if o[0] in "abc")
+        ncallers = sum(1 for p in progs if any(o[0] in "abc" for o in p))
+        if nasks >= 3 and ncallers >= 2:
+            return "C15-F3"
+    return "unlisted:" + kind
 
 
 def is_trivial(case, impl):
@@ -199,8 +306,10 @@ def is_trivial(case, impl):
 def tag(case, impl):
     if impl and impl.startswith("HANG"):
         return "hang"
+    if case.startswith("gask"):
+        return "grain:" + ("timeout" if impl and "|" in impl and "timeout" in impl.split("|")[1] else "replied")
     progs = [p.split() for p in case.split("|")[1].split(";")]
-    ncallers = sum(1 for p in progs if any(o.startswith("a") for o in p))
+    ncallers = sum(1 for p in progs if any(o[0] in "abc" for o in p))
     t = "timeout" if impl and "timeout" in impl.split("|")[1] else "replied"
     return f"callers={ncallers}:{t}"
 
